@@ -131,6 +131,58 @@ var ruleLowerCase = &core.Rule{ID: "R12.3", Min: 4,
 			if !isReader {
 				continue
 			}
+			// split form: the token reader only hands the raw declaration to its caller (text, found); the caller
+			// extracts and lower-cases the label
+			if f.Signature.Results().Len() == 2 && f.Object() != nil && !f.Object().Exported() {
+				var tok ssa.Value
+				for _, ci := range core.Calls(f) {
+					if isXMLDecoderCall(ci.Common(), "RawToken") || isXMLDecoderCall(ci.Common(), "Token") {
+						tok = ci.Value()
+					}
+				}
+				for _, r := range core.Returns(f) {
+					key := fmt.Sprintf("%s: %s", core.FName(f), returnOrdinal(r))
+					if k, ok := core.ConstString(r.Results[0]); ok && k == "" {
+						s.OK(key, c.Pos(r.Pos()), "no declaration")
+						continue
+					}
+					s.Check(tok != nil && derivesFrom(r.Results[0], tok, 0, map[ssa.Value]bool{}), key+": declaration text comes from the token", c.Pos(r.Pos()), "data-dependent on the token returned by the decoder", "the declaration handed to the caller is not the <?xml ... ?> token the decoder returned")
+				}
+				nSites := 0
+				for _, g := range c.SrcFuncs() {
+					for _, ci := range core.Calls(g) {
+						cs, ok := ci.(*ssa.Call)
+						if !ok || cs.Call.StaticCallee() != f {
+							continue
+						}
+						nSites++
+						var text ssa.Value
+						for _, ref := range *cs.Referrers() {
+							if ex, ok := ref.(*ssa.Extract); ok && ex.Index == 0 {
+								text = ex
+							}
+						}
+						for _, r := range core.Returns(g) {
+							key := fmt.Sprintf("%s: %s", core.FName(g), returnOrdinal(r))
+							v := r.Results[0]
+							if k, ok := core.ConstString(v); ok && k == "" {
+								s.OK(key, c.Pos(r.Pos()), "no label")
+								continue
+							}
+							lc, isLower := v.(*ssa.Call)
+							if isLower && core.CalleeIs(&lc.Call, "strings", "ToLower") {
+								s.Check(text != nil && derivesFrom(lc.Call.Args[0], text, 0, map[ssa.Value]bool{}), key+": label comes from the declaration token", c.Pos(r.Pos()), "strings.ToLower(label extracted from the declaration)", "the returned label is not computed from the <?xml ... ?> token the decoder returned")
+								continue
+							}
+							s.Check(text == nil || !derivesFrom(v, text, 0, map[ssa.Value]bool{}), key, c.Pos(r.Pos()), "not a label of the declaration", "a declared XML encoding label is returned without lower-casing")
+						}
+					}
+				}
+				if nSites == 0 {
+					s.Bad(core.FName(f)+": declaration reader is used", c.Pos(f.Pos()), "the XML declaration reader has no caller")
+				}
+				continue
+			}
 			for _, r := range core.Returns(f) {
 				key := fmt.Sprintf("%s: %s", core.FName(f), returnOrdinal(r))
 				v := r.Results[0]
